@@ -186,6 +186,28 @@ def _local_dict_copy(name, cls_name, reg, fnode):
             inherited = True
             if not _is_elem_copy(st.value):
                 deep = False
+    # name.update(X): X must be the inherited table itself; anything else means the new table is not (only) a copy of it
+    foreign_fill = False
+    for n in walk_function(fnode):
+        if isinstance(n, ast.Call) and isinstance(n.func, ast.Attribute) and isinstance(n.func.value, ast.Name) \
+                and n.func.value.id == name and n.func.attr in ('update', 'setdefault', '__setitem__'):
+            srcs = [norm(a) for a in n.args]
+            if n.func.attr == 'update' and srcs and srcs[0] in (target, '%s.items()' % target, 'dict(%s)' % target):
+                inherited = True
+                deep = False
+            else:
+                foreign_fill = True
+    for st in stores:
+        p = st
+        ok_loop = False
+        while p is not None and p is not fnode:
+            if isinstance(p, ast.For) and norm(p.iter).startswith(target):
+                ok_loop = True
+            p = getattr(p, '_parent', None)
+        if not ok_loop:
+            foreign_fill = True
+    if foreign_fill:
+        inherited = False
     if not stores and not inherited:
         deep = False
     return fresh, inherited, deep
@@ -227,6 +249,13 @@ def check_cow(repo, writer):
         if not fresh:
             writer.problems.append(('rebind-not-fresh|' + norm(rb.stmt), rb.stmt,
                                     '%s rebinds cls.%s to a value that is not a fresh copy' % (f.qualname, reg)))
+            continue
+        if not inherited:
+            writer.problems.append(('rebind-not-inherited|' + reg, rb.stmt,
+                                    '%s makes cls.%s a fresh table that is not a copy of the one the class inherits (cls.%s): the '
+                                    'class starts from other contents than the table it was using (e.g. a merge over the whole MRO '
+                                    'resurrects registrations made on a base after a nearer ancestor took its own copy)'
+                                    % (f.qualname, reg, reg)))
             continue
         any_copy = True
         if inherited and not deep:
